@@ -14,6 +14,7 @@ CONSTANTS
     LandmarkOwnStream = TRUE
     KeepLastDup = TRUE
     ReservedByFullName = TRUE
+    RefuseUnknownType = TRUE
 INIT GenInit
 NEXT GenNext
 CHECK_DEADLOCK FALSE
